@@ -79,3 +79,64 @@ Definition c_steplen (tau kappa dtau dkappa cap az as_ out frac : float) (combin
          || (PrimFloat.ltb 0%float (PrimFloat.add tau (PrimFloat.mul out dtau))
              && PrimFloat.ltb 0%float (PrimFloat.add kappa (PrimFloat.mul out dkappa))))
   then 0%N else 1%N.
+
+(** * barrier backtracking of the combined step under dual scaling
+    ([backtrack_step_to_barrier], solver.rs): at most 50 trials; the step is multiplied by
+    [step] after every trial whose barrier value is not below 1.  [ans] lists the answers of
+    the [barrier < 1] tests in order. *)
+Fixpoint bt_gen {T} (mul : T -> T -> T) (fuel : nat) (ans : list bool) (step a : T) : T :=
+  match fuel with
+  | O => a
+  | S f => match ans with
+           | [] => a
+           | true :: _ => a
+           | false :: r => bt_gen mul f r step (mul step a)
+           end
+  end.
+(** number of shrinkings: position of the first [true], at most [fuel] *)
+Fixpoint bt_count (fuel : nat) (ans : list bool) : nat :=
+  match fuel with
+  | O => O
+  | S f => match ans with
+           | [] => O
+           | true :: _ => O
+           | false :: r => S (bt_count f r)
+           end
+  end.
+
+Open Scope R_scope.
+Theorem bt_barrier_result (fuel : nat) (ans : list bool) (step a : R) :
+  bt_gen Rmult fuel ans step a = step ^ (bt_count fuel ans) * a /\ (bt_count fuel ans <= fuel)%nat.
+Proof.
+  revert ans a. induction fuel as [|f IH]; intros ans a; cbn [bt_gen bt_count].
+  - split; [ring|apply le_n].
+  - destruct ans as [|[|] r]; cbn [pow]; try (split; [ring|apply Nat.le_0_l]).
+    destruct (IH r (step * a)) as [E L]. rewrite E. split; [cbn [pow]; ring|apply le_n_S; exact L].
+Qed.
+
+(** hence the returned step is positive and not longer than the one it was given *)
+Theorem bt_barrier_bounds (fuel : nat) (ans : list bool) (step a : R) :
+  0 < step <= 1 -> 0 < a -> 0 < bt_gen Rmult fuel ans step a <= a.
+Proof.
+  intros [Hs0 Hs1] Ha. destruct (bt_barrier_result fuel ans step a) as [E _]. rewrite E.
+  set (k := bt_count fuel ans).
+  assert (Hp : 0 < step ^ k <= 1).
+  { split; [apply pow_lt; exact Hs0|].
+    induction k as [|k IHk]; cbn [pow]; [lra|]. assert (0 < step ^ k) by (apply pow_lt; exact Hs0). nra. }
+  destruct Hp as [Hp0 Hp1]. split; [apply Rmult_lt_0_compat; assumption|nra].
+Qed.
+Close Scope R_scope.
+
+(** well-formed answer list: every answer before the last is [false]; a run that stops before
+    50 trials ends on [true] *)
+Fixpoint ans_wf (ans : list bool) : bool :=
+  match ans with
+  | [] => false
+  | [b] => true
+  | b :: r => negb b && ans_wf r
+  end.
+Definition c_barrier_bt (step ainit aout : float) (ans : list bool) : N :=
+  let n := length ans in
+  if ans_wf ans && Nat.leb n 50 && (Nat.eqb n 50 || last ans false)
+     && fsame aout (bt_gen PrimFloat.mul 50 ans step ainit)
+  then 0%N else 1%N.
